@@ -16,6 +16,9 @@ open Vflow Vflow.Spec Vflow.JsonLex
 
 /-! ## Tree builders -/
 
+/-- the octets of a text given in pieces (examples only; short pieces keep kernel evaluation of `toUTF8` cheap) -/
+def txt (l : List String) : Bytes := (l.map fun s => s.toUTF8.toList).flatten
+
 def listOf : List Json → JList
   | [] => .nil
   | x :: xs => .cons x (listOf xs)
